@@ -24,7 +24,8 @@ theorem C06_normal (a : Acc) (tbl : Option Tbl) (v : Int) (s : List Char) (L : N
     (isWalk a v s = true ∧ CheckOk s chk →
         ∃ bits, decode a tbl v s L false chk = .ok bits ∧ bits.length = L) ∧
     (¬ (isWalk a v s = true ∧ CheckOk s chk) → decode a tbl v s L false chk = .error .valueError) := by
-  sorry
+  exact ⟨fun h => ⟨_, cn_decode_normal_ok a tbl v s L chk h.1 h.2, cn_numberToBitInt_length _ _⟩,
+    cn_decode_normal_err a tbl v s L chk⟩
 
 /-- longest prefix of `s` that is a walk from `v`. -/
 def walkablePrefix (a : Acc) : Int → List Char → List Char
@@ -41,16 +42,31 @@ theorem C06_fast (a : Acc) (tbl : Option Tbl) (v : Int) (s : List Char) (L : Nat
     (isWalk a v s = true ∧ CheckOk s chk →
         ∃ bits, decode a tbl v s L true chk = .ok bits ∧ bits.length = L) ∧
     (¬ (isWalk a v s = true ∧ CheckOk s chk) → decode a tbl v s L true chk = .error .valueError) := by
-  sorry
+  have hwp : ∀ (v : Int) (s : List Char), walkablePrefix a v s = cfWalkablePrefix a v s := by
+    intro v s
+    induction s generalizing v with
+    | nil => rfl
+    | cons c s ih =>
+      simp only [walkablePrefix, cfWalkablePrefix]
+      cases a.next v c with
+      | none => rfl
+      | some t => simp only [ih t]
+  rw [hwp] at hL
+  exact cf_C06_fast a tbl v s L chk h3 hL
 
 /-- corollary (C18): which strands are accepted does not depend on the shuffle table. -/
 theorem C06_table_independent (a : Acc) (tbl tbl' : Option Tbl) (v : Int) (s : List Char) (L : Nat)
     (chk : Option (List Char)) :
     (decode a tbl v s L false chk).toBool = (decode a tbl' v s L false chk).toBool := by
-  sorry
+  by_cases h : isWalk a v s = true ∧ vtMatches s chk = .ok true
+  · rw [cn_decode_normal_ok a tbl v s L chk h.1 h.2, cn_decode_normal_ok a tbl' v s L chk h.1 h.2]
+    rfl
+  · rw [cn_decode_normal_err a tbl v s L chk h, cn_decode_normal_err a tbl' v s L chk h]
 
 example : isWalk gcBalanced2 1 "TCTCTCT".toList = true ∧ CheckOk "TCTCTCT".toList (some "TAAGC".toList) := by
-  sorry
+  refine ⟨by decide +kernel, ?_⟩
+  unfold CheckOk
+  decide +kernel
 example : decode gcBalanced2 none 1 "TCTCTAT".toList 8 false none = .error .valueError := by decide +kernel
 
 end Dsw
